@@ -69,25 +69,35 @@ def u8 (x : Int) : Nat := (x % 256).toNat
 def wrap8 (x : Int) : Int := ((x + 128) % 256) - 128
 
 /-! ### Driver::ym2612_w / sn76489_w (driver.cpp) -/
-abbrev Op := Ctrmml.Vgm.Op
+/-- one `Driver::write(command, port, reg, data)`: all that channels can emit -/
+structure Wr where
+  cmd : Nat
+  port : Nat
+  reg : Nat
+  data : Nat
+  deriving DecidableEq, Repr
+
+def Wr.toOp (w : Wr) : Vgm.Op := .write w.cmd w.port w.reg w.data
+
+abbrev Op := Wr
 
 /-- `Driver::ym2612_w(port, reg, ch, op, data)` for the register classes the subset uses
 (the `reg ≥ 0xa8` operator-frequency remapping belongs to FM3 mode) -/
 def ymW (port reg ch op data : Nat) : List Op :=
-  if reg = 0x28 then [Vgm.Op.write 0x52 0 reg ((data * 16 + (ch ||| (port * 4))) % 65536)]
-  else if 0x30 ≤ reg ∧ reg < 0xa0 then [Vgm.Op.write 0x52 port ((reg + op * 4 + ch) % 256) data]
+  if reg = 0x28 then [Wr.mk 0x52 0 reg ((data * 16 + (ch ||| (port * 4))) % 65536)]
+  else if 0x30 ≤ reg ∧ reg < 0xa0 then [Wr.mk 0x52 port ((reg + op * 4 + ch) % 256) data]
   else if 0xa0 ≤ reg ∧ reg < 0xb0 then
-    [Vgm.Op.write 0x52 port ((reg + ch) % 256 + 4) (data / 256), Vgm.Op.write 0x52 port ((reg + ch) % 256) (data % 256)]
-  else if reg ≥ 0xb0 then [Vgm.Op.write 0x52 port ((reg + ch) % 256) data]
-  else [Vgm.Op.write 0x52 0 reg data]
+    [Wr.mk 0x52 port ((reg + ch) % 256 + 4) (data / 256), Wr.mk 0x52 port ((reg + ch) % 256) (data % 256)]
+  else if reg ≥ 0xb0 then [Wr.mk 0x52 port ((reg + ch) % 256) data]
+  else [Wr.mk 0x52 0 reg data]
 
 /-- `Driver::sn76489_w(reg, ch, data)` -/
 def snW (reg ch data : Nat) : List Op :=
   if reg = 0 then
     let d := data % 1024
     let cmd1 := ((d % 16) ||| (ch * 32) ||| 0x80) % 256
-    [Vgm.Op.write 0x50 0 0 cmd1] ++ (if ch < 3 then [Vgm.Op.write 0x50 0 0 ((d / 16) % 256)] else [])
-  else if reg = 1 then [Vgm.Op.write 0x50 0 0 (((data % 16) ||| (ch * 32) ||| 0x90) % 256)]
+    [Wr.mk 0x50 0 0 cmd1] ++ (if ch < 3 then [Wr.mk 0x50 0 0 ((d / 16) % 256)] else [])
+  else if reg = 1 then [Wr.mk 0x50 0 0 (((data % 16) ||| (ch * 32) ||| 0x90) % 256)]
   else []
 
 /-! ### pitch and volume tables -/
@@ -476,22 +486,22 @@ def stepPcm (s : Drv) : Drv :=
   if s.pcmCounter ≥ 0 then { s with pcmCounter := s.pcmCounter - pcmDelta } else s
 
 /-- `if(loop_trigger && get_loop_count() == 0) { set_loop(); reset_loop_count(); loop_trigger = 0; }` -/
-def stepLoop (s : Drv) : Drv × List Op :=
+def stepLoop (s : Drv) : Drv × List Vgm.Op :=
   if s.g.loopTrigger ∧ loopCount s = 0 then
     ({ s with chans := s.chans.map resetLoopCh, g := { s.g with loopTrigger := false } }, [Vgm.Op.setLoop])
   else (s, [])
 
 /-- `MD_Driver::play_step` -/
-def playStep (d : Data) (song : Song) (s : Drv) : Drv × List Op × Int :=
+def playStep (d : Data) (song : Song) (s : Drv) : Drv × List Vgm.Op × Int :=
   let r1 := stepSeq d song s
   let r3 := stepLoop (stepPcm r1.1)
   match advance r3.1.seqCounter r3.1.pcmCounter with
-  | none => ({ r3.1 with g := r3.1.g.fail .nonInteger }, r1.2 ++ r3.2, 0)
-  | some (sc, pc, dl) => ({ r3.1 with seqCounter := sc, pcmCounter := pc }, r1.2 ++ r3.2, dl)
+  | none => ({ r3.1 with g := r3.1.g.fail .nonInteger }, r1.2.map Wr.toOp ++ r3.2, 0)
+  | some (sc, pc, dl) => ({ r3.1 with seqCounter := sc, pcmCounter := pc }, r1.2.map Wr.toOp ++ r3.2, dl)
 
 /-- `MD_Driver::play_song` (after `data.read_song`): data block, DAC stream setup, channels in
 track-map order -/
-def playSong (d : Data) (song : Song) : Drv × List Op :=
+def playSong (d : Data) (song : Song) : Drv × List Vgm.Op :=
   let mk := song.tracks.foldl (fun (acc : List Ch × List Op) (t : Nat × List Event) =>
     if t.1 < 16 then
       let (c, o) := mkCh d t.1 t.2
@@ -500,12 +510,12 @@ def playSong (d : Data) (song : Song) : Drv × List Op :=
   ({ chans := mk.1, g := { tempoDelta := md_initial_tempo_delta, loopTrigger := false } },
    [Vgm.Op.datablock 0 [] mds_dataWaveRom 0 0,
     Vgm.Op.dacSetup (tab md_dac_setup_args 0) (tab md_dac_setup_args 1) (tab md_dac_setup_args 2)
-      (tab md_dac_setup_args 3) (tab md_dac_setup_args 4)] ++ mk.2)
+      (tab md_dac_setup_args 3) (tab md_dac_setup_args 4)] ++ mk.2.map Wr.toOp)
 
 def maxTime : Int := (vgm_export_max_seconds * vgm_export_rate : Nat)
 
 /-- the `while(elapsed_time < max_time)` loop of `Platform::vgm_export` -/
-def exportLoop (d : Data) (song : Song) : Nat → Drv → Int → Int → List Op → Drv × List Op
+def exportLoop (d : Data) (song : Song) : Nat → Drv → Int → Int → List Vgm.Op → Drv × List Vgm.Op
   | 0, s, _, _, acc => ({ s with g := s.g.fail .tooLong }, acc)
   | fuel + 1, s, elapsed, delta, acc =>
     if elapsed ≥ maxTime then ({ s with g := s.g.fail .tooLong }, acc) else
@@ -519,12 +529,12 @@ def exportLoop (d : Data) (song : Song) : Nat → Drv → Int → Int → List O
 def exportFuel : Nat := 1100000
 
 /-- header pokes of the `MD_Driver` constructor -/
-def ctorPokes : List Op :=
+def ctorPokes : List Vgm.Op :=
   md_vgm_pokes.map fun (w, off, v) =>
     Vgm.Op.poke off (if w = 4 then le32 v else if w = 2 then le16 v else [byteOf v])
 
 /-- `Platform::vgm_export`: the operations performed on the `VGM_Writer` -/
-def exportOps (d : Data) (song : Song) (tags : Vgm.Tags) : Except DErr (List Op) :=
+def exportOps (d : Data) (song : Song) (tags : Vgm.Tags) : Except DErr (List Vgm.Op) :=
   let (s, o0) := playSong d song
   let (s, o1) := exportLoop d song exportFuel s 0 0 []
   match s.g.err with
